@@ -17,7 +17,14 @@ SPEC = dict(
          'push/pull at both ends, insert/remove at {0, mid, last, num, num+1, SIZE_MAX}, push_sort, push+sort_fore/sort_back, element swap, '
          'whole-queue a_que_swap in every emptiness combination followed by further traffic and destruction, drop, setz, foreach; the comparator handed '
          'to push_sort/sort_fore/sort_back returns, chosen per case, -1/0/+1, the key difference, INT_MIN/0/INT_MAX or magnitudes varying with the '
-         'operands (only the sign is contractual). After EVERY call the '
+         'operands (only the sign is contractual); CALLER IDIOMS ON A PULLED ELEMENT (3 operation kinds in 25; a pulled element stays in the '
+         'queue\'s pool and the next push hands the node out again): p = pull_fore/pull_back/remove(i), the element at p is left alone, given '
+         'a new key byte or rewritten completely IN PLACE, then (key) d = push_sort(q, key = p, cmp) resp. d = push_fore/push_back(q) followed '
+         'by sort_fore/sort_back, or (source) d = push_fore/push_back/insert(q, j), each followed by the caller\'s `if (d != p) memcpy(d, p, '
+         'siz)`; one time in three the push goes to the OTHER queue (equal element size: the key/source then lives in the first queue\'s '
+         'pool); no call on either queue between the pull and the push; the model moves the element to the prescribed position (sorted forms: '
+         'any position keeping the sequence sorted, generated only on a sorted queue) holding the bytes the caller left in *p; the same two '
+         'idioms on the only element of a one-element queue. After EVERY call the '
          'rings are walked forward and backward (step-bounded) and compared with an id-sequence model; next->prev/prev->next consistency of every '
          'member incl. sentinels; slist tail == last node; queue count, fore/back/at(+-i) for every i, payload bytes, fixed element addresses, '
          'and "a pushed node is not the address of an enqueued element". distinct_nontrivial = distinct (family, operation, emptiness class of the '
@@ -69,6 +76,10 @@ SPEC = dict(
              'que-recycled-node-not-enqueued', 'que-pull-returns-the-element', 'que-sorted-insert-keeps-order-and-elements', 'que-element-swap',
              'que-whole-swap', 'que-drop', 'que-setz', 'que-foreach-macros', 'list-foreach-macros', 'slist-foreach-macros', 'que-destroyed', 'que-ctor-dtor-on-caller-storage',
              'que-pull-from-empty-returns-null',
+             # caller idioms on a pulled element (pull, then push with the pulled pointer as sort key / as source of the caller's copy)
+             'que-recycled-node-as-push_sort-key', 'que-recycled-node-pushed-and-sorted', 'que-recycled-node-as-copy-source',
+             'que-foreign-pooled-node-as-push_sort-key', 'que-foreign-pooled-node-as-copy-source',
+             'que-pulled-element-intact-after-push-of-another-node',
              'large-cases', 'large-list-rings-walked', 'large-list-growth-checkpoints', 'large-list-structural-ops-judged', 'large-list-section-ops',
              'large-list-detached-chain-walked', 'large-list-rotations', 'large-list-cases-reaching-65537',
              'large-slist-walked', 'large-slist-tail-designates-last-node', 'large-slist-growth-checkpoints', 'large-slist-ops-judged',
@@ -110,6 +121,13 @@ SPEC = dict(
         'calls (none is documented), and that a node may see a destructor again in a later API call; large cases only count the calls',
         'comparator (small cases): every pointer handed to it must be an enqueued element, the key given to a_que_push_sort or the element '
         'pushed just before sort_fore/sort_back (the documentation calls its operands elements); the number and order of the calls are not judged',
+        'pulled elements: the pointer returned by pull_fore/pull_back/remove is read and written by the caller until the next push on that '
+        'queue, and used as the key of a_que_push_sort / as the source of `if (d != p) memcpy(d, p, siz)` in that push; judged: the '
+        're-inserted element holds the caller\'s bytes at the prescribed position. When the push returns ANOTHER node (unchanged library: '
+        'only when the push goes to the other queue - the pool is LIFO) *p must still hold the caller\'s bytes at that moment. NOT judged: '
+        'that a pooled element keeps its bytes across later pushes/pulls that do not hand it out (nothing in que.h or the property speaks '
+        'about elements that are no longer enqueued), and that the next push returns the pulled node (counted: '
+        'que-pulled-node-handed-back-by-the-next-push)',
         'forsafe forms: the helper variable `at` is judged only through its documented use (a_slist_del(ctx, at) must unlink the current node; the '
         'list forms must continue with the saved neighbour after the current node was unlinked and re-initialised); a_que_foreach* are documented '
         'as iteration only, no element is removed inside them',
